@@ -11,6 +11,7 @@ import (
 	"sync"
 
 	"github.com/hprose/hprose-golang/v3/rpc/core"
+	"github.com/hprose/hprose-golang/v3/rpc/plugins/forward"
 
 	"verif/harness/fmtx"
 	"verif/harness/gen"
@@ -188,6 +189,7 @@ type c08Case struct {
 	Call    int    `json:"call,omitempty"` // replay: only this call
 	Seed    int64  `json:"seed,omitempty"`
 	Dynamic bool   `json:"dynamic,omitempty"` // the method table changes during the case; Call = number of steps
+	Forward string `json:"forward,omitempty"` // "" | "io" | "missing": through a forwarding gateway
 }
 
 func c08Run(t *tr.Writer, id int, c c08Case) {
@@ -206,6 +208,23 @@ func c08Run(t *tr.Writer, id int, c c08Case) {
 	}
 	ncall := 0
 	env, err := rpcenv.Start(c.Kind, svc, c.Pool)
+	if err == nil && c.Forward != "" {
+		// a gateway in front of the service: it has no functions of its own and forwards every request, as
+		// raw bytes (IO handler) or call by call (missing-method handler)
+		backend := env
+		defer backend.Close()
+		gw := core.NewService()
+		f := forward.New(backend.URL)
+		if c.Forward == "io" {
+			gw.Use(core.IOHandler(f.IOHandler))
+		} else {
+			gw.AddMissingMethod(f.Forward)
+		}
+		if c.Simple {
+			gw.Codec = core.NewServiceCodec(core.WithSimple(true))
+		}
+		env, err = rpcenv.Start([]string{"mock", "tcp"}[int(c.Seed)%2], gw, false)
+	}
 	if err != nil {
 		t.Reset(id*1000, tr.Rec{"kind": c.Kind, "pool": c.Pool, "simple": c.Simple, "table": table, "missing": c.Missing, "input": c})
 		t.Emit(tr.Rec{"ev": "setup-failed", "err": err.Error()})
@@ -463,6 +482,9 @@ func runC08(a Args) tr.Summary {
 		}
 	}
 	if a.Only == "" {
+		for i, fw := range []string{"io", "missing", "io", "missing"} {
+			cases = append(cases, c08Case{Kind: []string{"tcp", "mock", "http", "udp"}[i], Simple: i >= 2, Missing: i%2 == 1, Forward: fw, Seed: a.Seed*100 + int64(50+i)})
+		}
 		n := 6
 		if a.Tier == "thorough" {
 			n = 40
